@@ -436,6 +436,8 @@ class digest(FieldType):
             self.md5 = value.get("md5", self.md5)
             self.sha1 = value.get("sha1", self.sha1)
             self.sha256 = value.get("sha256", self.sha256)
+        elif value is not None:
+            raise TypeError("digest expects a tuple, list or dict, got {}".format(type(value).__name__))
 
     @classmethod
     def default(cls):
